@@ -81,6 +81,18 @@ def judge(run: Run, traces, label):
 
 def run(tier: str, seed: int) -> int:
     run_ = Run("C03", tier, seed)
+    # design level: the implementation-shaped table method (gap / hold-back bookkeeping, every release order)
+    # refines the least fixed point
+    for consts, label in ([("NC = 2 MaxShift = 1 MaxArity = 2 MaxRules = 2", "2 classes, <=2 insertions")] if tier == "quick" else
+                          [("NC = 2 MaxShift = 1 MaxArity = 2 MaxRules = 3", "2 classes, <=3 insertions"),
+                           ("NC = 3 MaxShift = 1 MaxArity = 1 MaxRules = 3", "3 classes, arity<=1, <=3 insertions"),
+                           ("NC = 2 MaxShift = 2 MaxArity = 1 MaxRules = 3", "2 classes, arity<=1, shifts -2..2, <=3 insertions")]):
+        cfg = tlc.read_spec("MC_TableMethod.cfg").replace("NC = 2 MaxShift = 1 MaxArity = 2 MaxRules = 2", consts)
+        tlc.write_module(run_.wd, "MC_TableMethod", tlc.read_spec("MC_TableMethod.tla"), cfg)
+        r = tlc.require_ok(tlc.run_tlc(run_.wd, "MC_TableMethod", workers=16, timeout=3000, heap="12g"), "MC_TableMethod " + label)
+        run_.add_tlc(r, "MC_TableMethod refines Lfp: " + label)
+        if r.status == "violated":
+            run_.tlc_violation(r, "MC_TableMethod/" + label)
     hists = []
     if tier == "quick":
         hists += model_histories(run_, 2, 1, 2, 2, "2 classes, arity<=2, shifts -1..1, <=2 insertions")
